@@ -25,6 +25,8 @@ pub const N_POISON: u32 = 26;
 /// Fault kinds used by the sweep: 0 send error, 1 receive error, 2 peer close, 3.. selected poison kinds.
 pub const SWEEP_KINDS: u32 = 9;
 const SWEEP_POISON: [u32; 6] = [0, 4, 5, 9, 11, 14];
+/// Fault kind "the peer goes silent" (only with client pings enabled: the client then gives up for inactivity).
+const SILENCE: u32 = 100;
 
 pub fn poison(k: u32, id_str: bool) -> InItem {
 	let t = |s: &str| InItem::Text(s.to_string());
@@ -67,6 +69,7 @@ fn describe_fault(kind: u32) -> String {
 		0 => "send-error".into(),
 		1 => "recv-error".into(),
 		2 => "peer-close".into(),
+		SILENCE => "peer-silent".into(),
 		k => format!("poison-{}", k - 3),
 	}
 }
@@ -94,7 +97,12 @@ pub async fn scenario() {
 		plans.push(v);
 	}
 	let n_late = rt::draw_range("n_late", 1, 3);
+	// a connection whose sends fail is usually dead both ways: nothing arrives after the first failed send
+	let silent = rt::chance("silent_after_send_fail", 1, 2);
 	let close_mode = if sweep_base || rt::param("fault_at").is_some() { 0 } else { *rt::pick("close_mode", &[0u32, 0, 0, 1, 2]) };
+	// client pings (1 s) with an inactivity limit on the virtual clock; the scripted peer answers every ping
+	let ping_mode = !sweep_base && rt::param("fault_at").is_none() && rt::chance("ping_mode", 1, 5);
+	let ping_cfg = if ping_mode { Some((*rt::pick("inactive_ms", &[1500u64, 2000, 3500]), *rt::pick("max_failures", &[1usize, 2, 3]))) } else { None };
 	// the fault: (kind, position). kind: 0 send error, 1 recv error, 2 peer close, 3+k poison k
 	let (kind, pos, front): (Option<u32>, u64, bool) = if let Some(p) = rt::param("fault_at") {
 		let fk = rt::param("fault_kind").unwrap_or(0) as u32;
@@ -104,30 +112,43 @@ pub async fn scenario() {
 		(None, 0, false)
 	} else {
 		let kind = match rt::draw("fault_class", 4) {
+			_ if ping_mode && rt::chance("silence", 1, 2) => SILENCE,
 			0 => 0,
 			1 => rt::draw_range("tf", 1, 2),
 			_ => 3 + rt::draw("poison", N_POISON),
 		};
 		(Some(kind), rt::draw_range("fault_pos", 1, 30) as u64, rt::chance("front", 1, 2))
 	};
-	rt::event("plan", format!("fronts={plans:?} late={n_late} max_conc={max_conc} id_str={id_str} presub={presub} close_mode={close_mode} fault={:?}@{pos}", kind.map(describe_fault)));
+	rt::event("plan", format!("fronts={plans:?} late={n_late} silent={silent} ping={ping_cfg:?} max_conc={max_conc} id_str={id_str} presub={presub} close_mode={close_mode} fault={:?}@{pos}", kind.map(describe_fault)));
 
 	let (wire, tx, rx) = Wire::new();
 	{
 		let mut w = wire.lock();
 		w.close_mode = close_mode;
+		w.silent_after_send_fail = silent;
 		if let Some(k) = kind {
 			w.fault_at = Some(pos);
 			w.fault = Some(match k {
 				0 => Fault::SendError,
 				1 => Fault::Recv { item: InItem::Err("injected receive error".into()), front },
 				2 => Fault::Recv { item: InItem::Err("injected: connection closed by peer".into()), front },
+				SILENCE => Fault::Silence,
 				k => Fault::Recv { item: poison(k - 3, id_str), front },
 			});
 		}
 	}
+	let mut builder = Client::builder();
+	if let Some((inactive_ms, max_failures)) = ping_cfg {
+		rt::probe("client_pings_enabled");
+		builder = builder.enable_ws_ping(
+			jsonrpsee_core::client::async_client::PingConfig::new()
+				.ping_interval(Duration::from_secs(1))
+				.inactive_limit(Duration::from_millis(inactive_ms))
+				.max_failures(max_failures),
+		);
+	}
 	let client = Arc::new(
-		Client::builder()
+		builder
 			.max_concurrent_requests(max_conc)
 			.id_format(if id_str { IdKind::String } else { IdKind::Number })
 			.request_timeout(Duration::from_secs(60))
@@ -172,6 +193,12 @@ pub async fn scenario() {
 				let t0 = (rt::now_stamp(), tokio::time::Instant::now());
 				let rec = run_op(&client, ti, &op, &nonce_ctr, &mut held).await;
 				ops.lock().unwrap().push((rec, t0.0, t0.1));
+				// a subscription handle that goes away makes the background task send an unsubscribe call on its own
+				if !held.is_empty() && rt::chance("drop_held", 1, 3) {
+					rt::event("op-drop-sub", format!("t{ti}"));
+					rt::probe("sub_handle_dropped");
+					held.pop();
+				}
 			}
 			held
 		}));
@@ -194,8 +221,13 @@ pub async fn scenario() {
 		let rec = run_op(&client, 99, &op, &nonce_ctr, &mut held_all).await;
 		ops.lock().unwrap().push((rec, t0.0, t0.1));
 	}
-	// let everything settle (fires every timer below the watchdog horizon)
-	rt::quiesce().await;
+	// let everything settle (fires every timer below the watchdog horizon; with pings on the timers never end, so a
+	// span longer than the request timeout stands in for quiescence)
+	if ping_mode {
+		tokio::time::sleep(Duration::from_secs(70)).await;
+	} else {
+		rt::quiesce().await;
+	}
 
 	// ---------------- oracle ----------------
 	let connected = client.is_connected();
@@ -238,10 +270,13 @@ fn check(
 	let w = wire.lock();
 	let fault_name = kind.map(describe_fault).unwrap_or_else(|| "none".into());
 	let transport_fault = matches!(kind, Some(0..=2));
+	let silence = kind == Some(SILENCE);
 	let fired = w.fault_fired_stamp;
 	// did the client get to see the fault?
 	let noticed: Option<u64> = match kind {
 		Some(0) => w.send_failed_stamp,
+		// the client gives up on a silent peer when its read task ends for inactivity
+		Some(SILENCE) => fired.and_then(|f| w.rx_dropped_stamp.filter(|r| *r > f)),
 		Some(_) => fired.and_then(|_| {
 			// the fault item is the one pushed without a peer-push event: find a delivered item that equals it
 			w.delivered.iter().find(|(_, _, it)| match (it, kind) {
@@ -299,18 +334,23 @@ fn check(
 				rt::violate(P, "placeholder-cause", format!("{what}:{phase}:{fault_name}"), format!("op {:?} failed with the placeholder error instead of the disconnect cause: {e}", op.nonces));
 			} else if e.contains("RequestTimeout") {
 				let elapsed_before_fault = w.fault_fired_vtime.is_some_and(|ft| ft.duration_since(*inv_t) >= Duration::from_secs(60));
-				if !elapsed_before_fault {
+				// a silent peer is only a failure once the client has given up on it
+				let excused = if silence { !noticed.is_some_and(|n| op.done_stamp > n) } else { elapsed_before_fault };
+				if !excused {
 					rt::violate(P, "stalled-until-timeout", format!("{what}:{phase}:{fault_name}"), format!("op {:?} was left pending until its request timeout instead of failing with the cause", op.nonces));
 				}
 			} else if e.starts_with("RestartNeeded(") {
 				causes.push(e.to_string());
+				if silence && !e.contains("ping/pong inactive") {
+					rt::violate(P, "wrong-cause", format!("{what}:{phase}:{fault_name}"), format!("op {:?} failed with {e}, which is not the inactivity the client gave up for", op.nonces));
+				}
 				if transport_fault && !e.contains("injected") {
 					rt::violate(P, "wrong-cause", format!("{what}:{phase}:{fault_name}"), format!("op {:?} failed with {e}, which does not carry the injected transport fault", op.nonces));
 				}
 				if kind.is_none() {
 					rt::violate(P, "spurious-disconnect", format!("{what}:{phase}"), format!("op {:?} failed with {e} although no fault was injected and the peer behaved", op.nonces));
 				}
-			} else if transport_fault || kind.is_none() {
+			} else if transport_fault || silence || kind.is_none() {
 				rt::violate(P, "unexpected-error", format!("{what}:{phase}:{fault_name}"), format!("op {:?} failed with {e}", op.nonces));
 			} else {
 				rt::probe("other_error_after_poison");
@@ -341,7 +381,7 @@ fn check(
 		}
 		// late operations after a noticed transport fault must fail
 		// (registering a notification handler involves no connection: it may still succeed while the client shuts down)
-		if late && transport_fault && noticed.is_some_and(|n| n < *inv_stamp) && !matches!(op.outcome, Outcome::Handler(_)) {
+		if late && (transport_fault || silence) && noticed.is_some_and(|n| n < *inv_stamp) && !matches!(op.outcome, Outcome::Handler(_)) {
 			let failed = matches!(&op.outcome, Outcome::Call(Err(_), None) | Outcome::Sub(Err(_), None) | Outcome::Batch(Err(_)) | Outcome::Notif(Err(_)) | Outcome::Handler(Err(_)));
 			if !failed {
 				rt::violate(P, "late-op-not-failed", format!("{what}:{fault_name}"), format!("op {:?} issued after the connection failed did not fail: {:?}", op.nonces, op.outcome));
@@ -356,6 +396,9 @@ fn check(
 	if let Some(d) = &on_disc {
 		if d.contains(PLACEHOLDER) {
 			rt::violate(P, "placeholder-cause", format!("on_disconnect:{fault_name}"), format!("on_disconnect() resolved with the placeholder: {d}"));
+		}
+		if silence && noticed.is_some() && !d.contains("ping/pong inactive") {
+			rt::violate(P, "wrong-cause", format!("on_disconnect:{fault_name}"), format!("on_disconnect() resolved with {d}"));
 		}
 		if transport_fault && noticed.is_some() && !d.contains("injected") {
 			rt::violate(P, "wrong-cause", format!("on_disconnect:{fault_name}"), format!("on_disconnect() resolved with {d}"));
@@ -382,10 +425,11 @@ fn check(
 			Some(0) => "noticed.send_error",
 			Some(1) => "noticed.recv_error",
 			Some(2) => "noticed.peer_close",
+			Some(SILENCE) => "noticed.silence",
 			_ => "noticed.poison",
 		});
 	}
-	if !connected && kind.is_some_and(|k| k >= 3) {
+	if !connected && kind.is_some_and(|k| k >= 3 && k != SILENCE) {
 		rt::probe("poison_caused_disconnect");
 	}
 }
